@@ -15,20 +15,26 @@ MANIFEST = {
     "C03": dict(
         engine="CFSync",
         text="Exhaustive TLC exploration of specs/CFSync (cfHandler's loop, getCheckpts, resolveConflict with its "
-             "getcfheaders / getcfilters / GetBlock gates, the batched checkpointed fetch with responses delivered in "
-             "any order by any peer and first-interval trimming, the at-tip fetch, rollBackToHeight and new header "
-             "batches interleaved at every gate) over a set of scenarios (behaviour assignment to 3-4 peers: honest, "
-             "unreliable, lying at height k in checkpoints / cfheaders / filters with every filter defect of the "
-             "statement, different PrevFilterHeader, not answering; initial tips; hard-coded checkpoint); EVERY "
-             "transition is replayed against the real blockManager functions on real headerfs stores holding a mined "
-             "2-3.5k header chain (queryAllPeers, QueryDispatcher, GetBlock, BanPeer scripted; real blocks and GCS "
-             "filters at the disputed heights) and the clauses of CFSyncProps.tla are evaluated by TLC on the observed "
-             "store contents and ban calls.",
-        note="Bounded: checkpoint interval 2 model heights (= 1000 real blocks), <=7 model heights, <=4 peers, one or "
-             "two reorganisations, scenarios sampled by VERIF_SEED around a fixed core. cfHandler's loop glue (lines "
-             "528-742) is emulated by the driver from the real in-memory tips; its sleeps and BlockHeadersSynced=false "
-             "branch are not run. A reorganisation can fall only where the handler waits for the network. Liveness "
-             "(the sync finishing) belongs to C04.",
+             "getcfheaders / getcfilters / GetBlock gates, the batched checkpointed fetch with answers delivered in "
+             "any order by any unbanned peer and first-interval trimming, the at-tip fetch; rollBackToHeight and new "
+             "header batches interleaved wherever the handler waits) over a set of scenarios: a behaviour for each "
+             "of 3 peers (honest; truthful but unreliable/silent; lying at height k in checkpoints only, in "
+             "checkpoints without serving cfheaders, with a different PrevFilterHeader, consistently with a filter "
+             "that omits a script / does not hash to the advertised value / is not served / has an extra element, "
+             "in cfheaders only, in the filter only), initial tips, a hard-coded checkpoint. EVERY transition is "
+             "replayed against the real blockManager functions on real headerfs stores holding a mined 2-3.5k "
+             "header chain (queryAllPeers, QueryDispatcher, GetBlock, BanPeer scripted as gates; real blocks and "
+             "GCS filters at the disputed heights) and the clauses of CFSyncProps.tla (not ahead, belongs to its "
+             "block, append only as successor, equals hard-coded checkpoints, dispute: honest value committed, "
+             "liars banned, honest peer not banned) are evaluated by TLC on the observed stores and ban calls. "
+             "Where the code leaves the model the handler is left to run on and is still judged.",
+        note="Bounded: checkpoint interval 2 model heights (= 1000 real blocks), <=7 model heights, 3 peers, one "
+             "lie height per liar, <=2 reorganisations; 14 fixed scenarios plus scenarios sampled by VERIF_SEED "
+             "(not every assignment). cfHandler's loop glue (lines 528-742) is re-implemented by the driver from "
+             "the real in-memory tips (its sleeps make running it per path too slow), so changes inside that loop "
+             "are not executed. A reorganisation falls only where the handler waits for the network / sleeps, not "
+             "between two store calls of one step. Panics and honest peers banned without any false answer in "
+             "play are counted in the evidence, not judged (no clause of C03); liveness belongs to C04.",
         design="4 C03", technique="TLA+ spec + TLC exhaustive + spec-to-code replay of every transition with gates + "
                                   "TLC-judged observed traces"),
 }
@@ -107,13 +113,24 @@ def sample_scenarios(rng, n, maxh, np_):
     return out
 
 
+# A tier is a list of phases; each phase is one exhaustive TLC run (constants,
+# scenarios = core + sampled) whose every transition is replayed.
 CONFIGS = {
-    "quick": dict(consts=dict(NP=3, CPI=2, MaxH=5, MaxSteps=9, MaxReorgs=1, MaxRb=3, MaxExt=1, MaxExtN=2,
-                              RbDepths="{1, 3}", EnvFree=False, EnvLean=True),
-                  sampled=3, walks=0),
-    "thorough": dict(consts=dict(NP=3, CPI=2, MaxH=7, MaxSteps=12, MaxReorgs=2, MaxRb=3, MaxExt=2, MaxExtN=2,
-                                 RbDepths="{1, 2, 3}", EnvFree=False, EnvLean=False),
-                     sampled=40, walks=3000),
+    "quick": [
+        dict(consts=dict(NP=3, CPI=2, MaxH=5, MaxSteps=9, MaxReorgs=1, MaxRb=3, MaxExt=1, MaxExtN=2,
+                         RbDepths="{1, 3}", EnvFree=False, EnvLean=True),
+             core=True, sampled=3, walks=0),
+    ],
+    "thorough": [
+        # longer chain (3.5 intervals), every rollback depth, new headers at every wait
+        dict(consts=dict(NP=3, CPI=2, MaxH=7, MaxSteps=9, MaxReorgs=1, MaxRb=3, MaxExt=2, MaxExtN=2,
+                         RbDepths="{1, 2, 3}", EnvFree=False, EnvLean=False),
+             core=True, sampled=8, walks=1500),
+        # a second reorganisation
+        dict(consts=dict(NP=3, CPI=2, MaxH=5, MaxSteps=8, MaxReorgs=2, MaxRb=2, MaxExt=2, MaxExtN=1,
+                         RbDepths="{1, 2}", EnvFree=False, EnvLean=True),
+             core=True, sampled=2, walks=0),
+    ],
 }
 
 
@@ -151,40 +168,71 @@ def my_drift(pf, observed):
     return n_steps, n_drift, samples
 
 
+class _Sum:
+    """Totals over the phases, in the shape family.finish expects."""
+    def __init__(self):
+        self.generated = self.distinct = self.depth = 0
+        self.wall = 0.0
+        self.edges = []
+
+
 def run(prop_id, tier, seed, replay=None):
     t0 = time.time()
     rng = random.Random(seed)
-    cfg = CONFIGS[tier]
-    consts = dict(cfg["consts"])
-    consts.update(CODE_VERSION)
     sc = core.scratch("cfs")
     try:
         pf = os.path.join(sc, "paths.ndjson")
-        scen = []
+        scen_all, phase_info = [], []
+        maxh = 5
         if replay:
             family.paths_from_replay(replay, pf)
-            tlc, g, paths, unreach = family._NoTLC(), None, [0], 0
+            tot, g, paths, unreach = family._NoTLC(), None, [0], 0
+            for line in open(pf):
+                d = json.loads(line)
+                maxh = max([maxh, len(d["init_obs"]["B"]) - 1] + [len(x["obs"]["B"]) - 1 for x in d["steps"]])
         else:
-            maxh = consts["MaxH"]
-            scen = core_scenarios(maxh) + sample_scenarios(rng, cfg["sampled"], maxh, consts["NP"])
-            defs = "ScenSet == {%s}" % ",\n  ".join(scen_tla(*s) for s in scen)
-            tlc = core.run_tlc([SPEC], "CFSync", consts, workers=1, invariants=["TypeOK"],
-                               cfg_extra="CONSTANT Scen <- ScenSet", extra_defs=defs,
-                               workdir=os.path.join(sc, "tlc"), timeout=3000, heap="6g")
-            if not tlc.ok:
-                raise core.MachineryError("TLC on CFSync failed: %s\n%s" % (tlc.error, tlc.stdout_tail[-3000:]))
-            g = core.Graph.load(tlc)
-            paths, unreach = core.edge_cover(g, rng)
-            if cfg["walks"]:
-                paths += core.random_walks(g, cfg["walks"], 16, rng)
-            core.write_paths(g, paths, pf)
+            tot, unreach, paths = _Sum(), 0, []
+            g = tot
+            with open(pf, "w") as out:
+                for pi, ph in enumerate(CONFIGS[tier]):
+                    consts = dict(ph["consts"])
+                    consts.update(CODE_VERSION)
+                    maxh = max(maxh, consts["MaxH"])
+                    scen = (core_scenarios(consts["MaxH"]) if ph["core"] else []) + \
+                        sample_scenarios(rng, ph["sampled"], consts["MaxH"], consts["NP"])
+                    defs = "ScenSet == {%s}" % ",\n  ".join(scen_tla(*s) for s in scen)
+                    tlc = core.run_tlc([SPEC], "CFSync", consts, workers=1, invariants=["TypeOK"],
+                                       cfg_extra="CONSTANT Scen <- ScenSet", extra_defs=defs,
+                                       workdir=os.path.join(sc, "tlc%d" % pi), timeout=3000, heap="8g")
+                    if not tlc.ok:
+                        raise core.MachineryError("TLC on CFSync failed: %s\n%s" % (tlc.error, tlc.stdout_tail[-3000:]))
+                    gp = core.Graph.load(tlc)
+                    pp, un = core.edge_cover(gp, rng)
+                    if ph["walks"]:
+                        pp += core.random_walks(gp, ph["walks"], 14, rng)
+                    tmp = os.path.join(sc, "paths%d.ndjson" % pi)
+                    core.write_paths(gp, pp, tmp)
+                    for line in open(tmp):
+                        d = json.loads(line)
+                        d["id"] += len(paths)
+                        out.write(json.dumps(d, separators=(",", ":")) + "\n")
+                    paths += pp
+                    unreach += un
+                    tot.generated += tlc.generated
+                    tot.distinct += tlc.distinct
+                    tot.depth = max(tot.depth, tlc.depth)
+                    tot.wall += tlc.wall
+                    tot.edges += gp.edges
+                    scen_all += scen
+                    phase_info.append({"config": consts, "scenarios": len(scen), "states": tlc.distinct,
+                                       "edges": len(gp.edges), "paths": len(pp), "tlc_wall_s": round(tlc.wall, 1)})
+                    shutil.rmtree(os.path.join(sc, "tlc%d" % pi), ignore_errors=True)
         binary = family.build_overlay_test(
             PKG, [DRIVER], os.path.join(sc, "neutrino.test"),
             extra_overlay={os.path.join(core.REPO, "chainsync", os.path.basename(HOOK)): HOOK})
         observed, log = family.run_driver(binary, "TestVerifCFSyncReplay", pf, os.path.join(sc, "obs.ndjson"), sc,
-                                          env_extra={"VERIF_SEED": str(seed),
-                                                     "VERIF_CFS_MAXH": str(consts["MaxH"])},
-                                          timeout=5400)
+                                          env_extra={"VERIF_SEED": str(seed), "VERIF_CFS_MAXH": str(maxh)},
+                                          timeout=7200)
         verdict = family.judge([SPEC], "CFSyncProps", PROPS[prop_id], prop_id, observed, label=label)
         dr = my_drift(pf, observed)
         panics = sum(1 for t in observed for s in t["steps"] if s["act"].get("res") == "panic")
@@ -192,12 +240,13 @@ def run(prop_id, tier, seed, replay=None):
                  if any(a["kind"] == "H" and s["obs"]["ban"][q] == 1 and
                         (t["steps"][i - 1]["obs"] if i else t["init_obs"])["ban"][q] == 0
                         for q, a in enumerate(s["obs"]["asg"])))
-        return family.finish(prop_id, tier, seed, t0, tlc, g, paths, observed, verdict, dr,
-                             {"config": consts, "scenarios": len(scen),
-                              "scenario_list": [scen_tla(*s) for s in scen][:60],
+        return family.finish(prop_id, tier, seed, t0, tot, g, paths, observed, verdict, dr,
+                             {"phases": phase_info, "code_version": CODE_VERSION, "scenarios": len(scen_all),
+                              "scenario_list": [scen_tla(*s) for s in scen_all][:60],
                               "edges_only_reachable_through_model_violation": unreach,
                               "replayed_steps_where_the_code_panicked": panics,
-                              "replayed_steps_banning_an_honest_peer": hb},
+                              "replayed_steps_banning_an_honest_peer": hb,
+                              "paths_rerun_for_map_order_choice": sum(1 for t in observed if t.get("tries", 1) > 1)},
                              ASSUMPTIONS, label=label)
     finally:
         shutil.rmtree(sc, ignore_errors=True)
